@@ -257,6 +257,18 @@ fn judge_grid(case: &Case, l: &mut Local) {
                 Err(_) => continue,
             };
             let m2 = Mesh::new_with_uv(v.clone(), f1.clone(), false, Some(map));
+            // a mesh that carries a UV map cannot take on more faces (the map would no longer cover them): the
+            // attempt is refused in both directions and leaves the mesh as it was
+            {
+                let shift: Vec<Point3> = v.iter().map(|q| q + Vector3::new(50.0, 0.0, 0.0)).collect();
+                let plain = Mesh::new(shift, f1.clone(), false);
+                let mut with_uv = m2.clone();
+                let mut plain2 = plain.clone();
+                let r1 = with_uv.append(&plain);
+                let r2 = plain2.append(&m2);
+                let untouched = with_uv.faces().len() == f1.len() && with_uv.vertices().len() == v.len() && plain2.faces().len() == f1.len();
+                l.check("appending is refused when either mesh carries a UV map, and changes nothing", "", r1.is_err() && r2.is_err() && untouched, mk, || format!("uv.append(plain) {:?}, plain.append(uv) {:?}, faces {} and {}", r1.is_ok(), r2.is_ok(), with_uv.faces().len(), plain2.faces().len()));
+            }
             for t in f1.iter() {
                 for bc in [[0.2, 0.3, 0.5], [1.0 / 3.0, 1.0 / 3.0, 1.0 / 3.0], [0.6, 0.3, 0.1], [0.05, 0.9, 0.05]] {
                     l.eval();
